@@ -49,6 +49,10 @@ var c04Focus = []string{
 	"  {% set q = 1 %}\n\n\n{{ q }}  {% if q %}\n\n y {% endif %}",
 	"{% macro m(a) %}{% cycle 1 2 %}{{ a }}{% endmacro %}{{ m(s) }}{{ m(i) }}",
 	"{% for i in l %}{% include 'inc.tpl' %}{% endfor %}",
+	// call sites: the argument list belongs to the compiled template, the implicit context argument to the execution
+	"{{ fc3(s, \"b\", \"c\") }}{% for q in l %}{{ fc3(\"x\", s, \"z\") }}{% endfor %}",
+	"{{ fc5(\"1\", \"2\", s, \"4\", \"5\") }}{{ fc5(\"1\", \"2\", \"3\", \"4\", s) }}",
+	"{% for q in l %}{% if fc3(\"a\", \"b\", \"c\") %}{{ fc5(\"a\", \"b\", \"c\", \"d\", \"e\") }}{% endif %}{% endfor %}",
 	// list literals are values of one evaluation, not of the template
 	"{% for q in [1, 2, 3] reversed %}{{ q }}{% endfor %}",
 	"{% for q in [3, 1, 2] sorted %}{{ q }}{% endfor %}{% for q in [3, 1, 2] %}{{ q }}{% endfor %}",
@@ -116,6 +120,10 @@ func suiteC04(cfg Config, res *Result) {
 				pc.Loaders = []map[string]string{{}}
 			}
 			pc.Loaders[0]["inc.tpl"] = "{% cycle 'p' 'q' %}{% ifchanged %}z{% endifchanged %}"
+			ct := *pc.Ctx
+			ct.Names = append(append([]string{}, ct.Names...), "fc3", "fc5")
+			ct.Vals = append(append([]VT{}, ct.Vals...), vFunc(23), vFunc(24))
+			pc.Ctx = &ct
 		}
 		pc.Trim = rng.Bool()
 		pc.LStrip = rng.Bool()
